@@ -23,6 +23,7 @@ EXPLANATION = (
     "of an emit output must advance its version — either the version write is not control-dependent on value inequality when the stored value is "
     "the one module-level sentinel, or emit writers store a fresh object per production; and the first production of any name always advances its "
     "version (R4b), so a consumer that already ran on a default is re-run. (R5) every completion of an emit-capable node produces its signals: each normal return of the executors of function, route, if/else and interrupt nodes is the result of a function that stores the sentinel for every emit output (followed through helper returns and single-assignment temporaries). R3 also requires that the gate-decides-first block is computed before the deferral (a deferred gate still holds its targets back, else the loop synchronised on the signal never evaluates its gate). R5 also covers completions served from the cache: on a hit the whole restored payload (data outputs and re-applied sentinels) is applied, not a projection of it."
+    " R5 also requires that the cache key depends on the node's full output names (emit names included) or that the served payload is projected onto the hitting node's outputs: a hit on one node never produces the signal of another node that stored the entry."
 )
 NOT_DECIDED = "Full liveness of arbitrary loops (that the other readiness conditions eventually hold); several waiters per signal are covered only through the per-node bookkeeping."
 
@@ -251,6 +252,21 @@ def check_completions_emit(ctx, rule: str) -> None:
             ok = bool(hit_defs) and all(isinstance(v, ast.Name) for _, _, v in hit_defs)
             bad = [v for _, _, v in hit_defs if not isinstance(v, ast.Name)]
             rep.add(rule, f"{f.qname}:hit-applies-whole-payload", ok, f.loc(), "on a cache hit the restored payload (data outputs and re-applied emit sentinels) is applied as it is" if ok else f"on a cache hit only a projection of the restored payload is applied ('{src(bad[0])[:70] if bad else '?'}'): emit sentinels are dropped, the signal's version does not advance and a waiter never runs for that production")
+    # ... and only the hitting node's signals: a stored payload carries the storing node's emit names, so two
+    # nodes that differ in their emit names must not share an entry (else a hit on one raises the other's
+    # signal: a waiter starts before its producer, or re-runs without a new production)
+    from .c09 import cache_key_attrs
+
+    used = cache_key_attrs(ctx)
+    if used is None:
+        raise AnalysisError("compute_cache_key call in check_cache not recognised")
+    cc = db.func("runners._shared.caching.check_cache")
+    projected = any(
+        isinstance(x, ast.DictComp) and any(isinstance(y, ast.Attribute) and y.attr in ("outputs", "data_outputs") for g in x.generators for y in ast.walk(g))
+        for x in ast.walk(cc.node)
+    )
+    okk = "outputs" in used or "emit" in used or projected
+    rep.add(rule, f"{cc.qname}:entry-keyed-by-signal-names", okk, cc.loc(), "the cache key depends on the node's full output names (emit names included): a hit serves an entry stored by a node with the same signals" if okk else "the cache key does not depend on the node's emit names and the served payload is not projected onto the hitting node's outputs: a hit on one node produces the signal of the other node that stored the entry")
     n = 0
     for ci in db.classes.values():
         if ".executors." not in ci.module.name or "GraphNode" in ci.name:
@@ -282,4 +298,6 @@ VARIANTS = [
     Variant("no-newness-tracking", TY, replace_once("        if is_new or value is _EMIT_SENTINEL:", "        if value is _EMIT_SENTINEL:"), {"C17.R4"}),
     Variant("newness-after-store", TY, replace_once("        is_new = name not in self.values\n\n        self.values[name] = value\n", "        self.values[name] = value\n        is_new = name not in self.values\n"), {"C17.R4"}),
     Variant("twin-bump-helper", TY, replace_once("        if is_new or value is _EMIT_SENTINEL:\n            self.versions[name] = self.versions.get(name, 0) + 1\n        else:", "        always = is_new or value is _EMIT_SENTINEL\n        if always:\n            self.versions[name] = self.versions.get(name, 0) + 1\n        else:"), set()),
+    Variant("cache-key-without-emit-names", "src/hypergraph/runners/_shared/caching.py", replace_once(":{node.outputs!r}:", ":"), {"C17.R5"}),
+    Variant("twin-cache-key-emit-names-separately", "src/hypergraph/runners/_shared/caching.py", replace_once(":{node.outputs!r}:", ":{node.outputs[len(node.data_outputs):]!r}:"), set()),
 ]
